@@ -39,6 +39,12 @@ impl program_stubs::SyscallStubs for Stubs {
         unsafe { std::ptr::write_unaligned(var_addr as *mut Rent, Rent::default()) };
         0
     }
+    fn sol_get_last_restart_slot(&self, var_addr: *mut u8) -> u64 {
+        // SAFETY: the caller (`LastRestartSlot::get`) passes a pointer to a `LastRestartSlot { last_restart_slot: u64 }`.
+        unsafe { std::ptr::write_unaligned(var_addr as *mut u64, LAST_RESTART_SLOT.load(Ordering::SeqCst)) };
+        0
+    }
+    fn sol_set_return_data(&self, _data: &[u8]) {}
     fn sol_invoke_signed(&self, _ix: &Instruction, _infos: &[AccountInfo], _seeds: &[&[&[u8]]]) -> ProgramResult {
         CPI_COUNT.fetch_add(1, Ordering::SeqCst);
         Ok(())
@@ -49,3 +55,117 @@ impl program_stubs::SyscallStubs for Stubs {
 pub fn install_stubs() {
     let _ = program_stubs::set_syscall_stubs(Box::new(Stubs));
 }
+
+// ---------------------------------------------------------------- in-process instruction execution
+use anchor_lang::prelude::Pubkey;
+use anchor_lang::solana_program::{instruction::AccountMeta, program_error::ProgramError};
+
+/// One account of the mini ledger.
+#[derive(Clone, Debug, PartialEq, Eq)]
+pub struct Acct {
+    pub key: Pubkey,
+    pub lamports: u64,
+    pub data: Vec<u8>,
+    pub owner: Pubkey,
+    pub executable: bool,
+}
+
+impl Acct {
+    pub fn new(key: Pubkey, owner: Pubkey, data: Vec<u8>) -> Self {
+        Acct { key, lamports: 1_000_000_000, data, owner, executable: false }
+    }
+    pub fn wallet(key: Pubkey) -> Self {
+        Acct::new(key, anchor_lang::solana_program::system_program::ID, vec![])
+    }
+    pub fn program(key: Pubkey) -> Self {
+        Acct { key, lamports: 1, data: vec![], owner: Pubkey::new_from_array([3u8; 32]), executable: true }
+    }
+}
+
+pub type Entry = for<'info> fn(&Pubkey, &'info [AccountInfo<'info>], &[u8]) -> ProgramResult;
+
+/// Outcome of one instruction.
+#[derive(Debug, Clone, PartialEq, Eq)]
+pub struct Outcome {
+    pub result: Result<(), ProgramError>,
+    /// did the program modify any account byte before returning (observed BEFORE the rollback)?
+    pub touched_before_return: bool,
+}
+
+/// 16-aligned scratch buffer: account data starts 8 bytes in, so that the zero-copy struct behind the
+/// 8-byte discriminator is 16-aligned (u128 fields) as `bytemuck::from_bytes` requires natively.
+fn aligned_copy(data: &[u8]) -> (&'static mut [u8], usize) {
+    let words = (data.len() + 8 + 15) / 16 + 1;
+    let buf: &'static mut [u128] = Box::leak(vec![0u128; words].into_boxed_slice());
+    let bytes: &'static mut [u8] = unsafe { std::slice::from_raw_parts_mut(buf.as_mut_ptr() as *mut u8, words * 16) };
+    let (_, rest) = bytes.split_at_mut(8);
+    let len = data.len();
+    rest[..len].copy_from_slice(data);
+    let (d, _) = rest.split_at_mut(len);
+    (d, len)
+}
+
+/// Run `entry(program_id, accounts(metas), data)` on the ledger.  A failed instruction leaves the ledger
+/// untouched (the runtime's transaction atomicity is MODELLED here); whether the program had written
+/// anything before failing is reported separately.
+pub fn process(ledger: &mut Vec<Acct>, entry: Entry, program_id: &Pubkey, metas: &[AccountMeta], data: &[u8]) -> Outcome {
+    let mut infos: Vec<AccountInfo<'static>> = Vec::with_capacity(metas.len());
+    let mut slots: Vec<(usize, &'static [u8], &'static u64)> = vec![];
+    // one shared backing store per distinct key (duplicates alias the same cells, as in the real runtime)
+    let mut seen: Vec<(Pubkey, AccountInfo<'static>)> = vec![];
+    for m in metas {
+        if let Some((_, ai)) = seen.iter().find(|(k, _)| *k == m.pubkey) {
+            let mut ai = ai.clone();
+            ai.is_signer = m.is_signer;
+            ai.is_writable = m.is_writable;
+            infos.push(ai);
+            continue;
+        }
+        let idx = match ledger.iter().position(|a| a.key == m.pubkey) {
+            Some(i) => i,
+            None => {
+                ledger.push(Acct { key: m.pubkey, lamports: 0, data: vec![], owner: anchor_lang::solana_program::system_program::ID, executable: false });
+                ledger.len() - 1
+            }
+        };
+        let a = &ledger[idx];
+        let key: &'static Pubkey = Box::leak(Box::new(a.key));
+        let owner: &'static Pubkey = Box::leak(Box::new(a.owner));
+        let lamports: &'static mut u64 = Box::leak(Box::new(a.lamports));
+        let lam_ptr: *const u64 = lamports;
+        let (d, _) = aligned_copy(&a.data);
+        let d_ptr: *const u8 = d.as_ptr();
+        let d_len = d.len();
+        let ai = AccountInfo::new(key, m.is_signer, m.is_writable, lamports, d, owner, a.executable, 0);
+        // SAFETY: the leaked buffers live for the rest of the process; read back after the call.
+        slots.push((idx, unsafe { std::slice::from_raw_parts(d_ptr, d_len) }, unsafe { &*lam_ptr }));
+        seen.push((m.pubkey, ai.clone()));
+        infos.push(ai);
+    }
+    let infos: &'static [AccountInfo<'static>] = Box::leak(infos.into_boxed_slice());
+    let result = entry(program_id, infos, data);
+    // read back (data length may not change in the instructions we drive: no realloc support)
+    let mut touched = false;
+    let mut after: Vec<(usize, Vec<u8>, u64, Pubkey)> = vec![];
+    for (k, (idx, _d, _l)) in slots.iter().enumerate() {
+        let ai = &seen[k].1;
+        let data_now = ai.data.borrow().to_vec();
+        let lam_now = **ai.lamports.borrow();
+        let owner_now = *ai.owner;
+        if data_now != ledger[*idx].data || lam_now != ledger[*idx].lamports || owner_now != ledger[*idx].owner {
+            touched = true;
+        }
+        after.push((*idx, data_now, lam_now, owner_now));
+    }
+    if result.is_ok() {
+        for (idx, d, l, o) in after {
+            ledger[idx].data = d;
+            ledger[idx].lamports = l;
+            ledger[idx].owner = o;
+        }
+    }
+    Outcome { result, touched_before_return: touched && true }
+}
+
+/// `LastRestartSlot` sysvar value served by the stub.
+pub static LAST_RESTART_SLOT: AtomicU64 = AtomicU64::new(0);
